@@ -9,7 +9,12 @@ Recipe kinds
          "successor": {"defs": [[kind], ...], "opt": OPT},
          "props": [[mode, constr, default_idx|null], ...], "attrs": [[mode, constr, default_idx|null], ...]}
       kind in single/optional/variadic; OPT in none/attr_sized_prop/attr_sized_attr/same_size;
-      constr in any/int/i32/T/U; mode in req/opt/dflt/optdflt.
+      constr in any/int/i32/T/U (props/attrs also arrN/arrM: ArrayAttr whose length is the int variable N/M);
+      mode in req/opt/dflt/optdflt.
+      Optional extra last element of a non-single operand/result def (3rd) or of any region def (4th): a LENGTH
+      constraint ["N"] (IntVarConstraint N over AnyInt) | ["M"] (IntVarConstraint M over AtLeast(1)) |
+      ["ge", k] | ["le", k] | ["eq", k], built as RangeOf(constr).of_length(...); for operands/results it constrains
+      the segment length, for regions the number of entry-block arguments of every non-empty region of the def.
       Field names: operands o<j>, results r<j>, regions g<j>, successors s<j>, properties p<j>, attributes a<j>.
     I (arbitrary instance) =
         {"via": "create", "operand": [tidx...], "result": [tidx...], "region": [[[tidx...] per block] per region],
@@ -65,12 +70,14 @@ CONSTRUCTS = ("operand", "result", "region", "successor")
 KINDS = ("single", "optional", "variadic")
 OPTS = ("none", "attr_sized_prop", "attr_sized_attr", "same_size")
 CONSTRS = ("any", "int", "i32", "T", "U")
+PROP_CONSTRS = CONSTRS + ("arrN", "arrM")
 MODES = ("req", "opt", "dflt", "optdflt")
 SEGNAME = {"operand": "operandSegmentSizes", "result": "resultSegmentSizes",
            "region": "regionSegmentSizes", "successor": "successorSegmentSizes"}
 PREFIX = {"operand": "o", "result": "r", "region": "g", "successor": "s"}
-NTYPES = 5          # universe indices 0..4 are types (0,1,2 integer types), 5..8 other attributes
-NUNIV = 9
+NTYPES = 5          # universe indices 0..4 are types (0,1,2 integer types), 5..8 other attributes,
+NUNIV = 12          # 9..11 ArrayAttr of length 0, 1, 2
+ARR0 = 9
 INTS = (0, 1, 2)
 NBLOCKS = 3         # blocks of the region the instance is placed in (successor targets)
 
@@ -85,8 +92,9 @@ def universe():
     if _UNIV is None:
         from xdsl.dialects.builtin import (IndexType, IntegerAttr, StringAttr, UnitAttr, f32, i1, i32,
                                            i64)
+        from xdsl.dialects.builtin import ArrayAttr
         _UNIV = [i32, i64, i1, f32, IndexType(), StringAttr("s"), UnitAttr(), IntegerAttr(1, i32),
-                 IntegerAttr(1, i64)]
+                 IntegerAttr(1, i64), ArrayAttr([]), ArrayAttr([i32]), ArrayAttr([i32, i64])]
     return _UNIV
 
 
@@ -116,7 +124,65 @@ def real_constr(c):
         return VarConstraint("T", AnyAttr())
     if c == "U":
         return VarConstraint("U", BaseAttr(IntegerType))
+    if c in ("arrN", "arrM"):
+        from xdsl.dialects.builtin import ArrayAttr
+        from xdsl.irdl import RangeOf
+        return ArrayAttr.constr(RangeOf(AnyAttr()).of_length(real_int_constr([c[-1]])))
     raise ValueError(f"bad constraint {c!r}")
+
+
+def real_int_constr(spec):
+    from xdsl.irdl import AnyInt, AtLeast, AtMost, EqIntConstraint, IntVarConstraint
+    if spec[0] == "N":
+        return IntVarConstraint("N", AnyInt())
+    if spec[0] == "M":
+        return IntVarConstraint("M", AtLeast(1))
+    if spec[0] == "ge":
+        return AtLeast(int(spec[1]))
+    if spec[0] == "le":
+        return AtMost(int(spec[1]))
+    if spec[0] == "eq":
+        return EqIntConstraint(int(spec[1]))
+    raise ValueError(f"bad length constraint {spec!r}")
+
+
+def len_spec(c, d):
+    """Length-constraint spec of a def recipe entry, or None (old recipes have none)."""
+    n = 4 if c == "region" else 3
+    if c == "successor" or len(d) < n or d[n - 1] is None:
+        return None
+    return d[n - 1]
+
+
+def def_constr(c, d):
+    """Constraint object handed to operand_def/result_def/region_def(entry_args=...)."""
+    spec = len_spec(c, d)
+    if spec is None:
+        return real_constr(d[1])
+    from xdsl.irdl import RangeOf
+    return RangeOf(real_constr(d[1])).of_length(real_int_constr(spec))
+
+
+def int_sat(spec, n, ienv):
+    """Reference evaluation of a length constraint on length n with the shared int context ienv
+    (declaration order, bound on first use; 0 is a value like any other). -> why | None"""
+    if spec is None:
+        return None
+    k = spec[0]
+    if k in ("N", "M"):
+        if k in ienv:
+            return None if ienv[k] == n else "length_variable_mismatch_" + k
+        if k == "M" and n < 1:
+            return "length_variable_base_M"
+        ienv[k] = n
+        return None
+    if k == "ge":
+        return None if n >= spec[1] else "length_lt_min"
+    if k == "le":
+        return None if n <= spec[1] else "length_gt_max"
+    if k == "eq":
+        return None if n == spec[1] else "length_ne_exact"
+    raise ValueError(f"bad length constraint {spec!r}")
 
 
 def check_def(D):
@@ -131,9 +197,16 @@ def check_def(D):
                 raise ValueError("constr")
             if c == "region" and d[2] not in (0, 1):
                 raise ValueError("single_block")
+            spec = len_spec(c, d)
+            if spec is not None:
+                if c != "region" and d[0] == "single":
+                    raise ValueError("length constraint on a single operand/result def")
+                if spec[0] not in ("N", "M", "ge", "le", "eq") or (
+                        spec[0] in ("ge", "le", "eq") and not isinstance(spec[1], int)):
+                    raise ValueError("length spec")
     for key in ("props", "attrs"):
         for m, c, dv in D[key]:
-            if m not in MODES or c not in CONSTRS:
+            if m not in MODES or c not in PROP_CONSTRS:
                 raise ValueError("prop")
             if (m in ("dflt", "optdflt")) != (dv is not None):
                 raise ValueError("default")
@@ -158,9 +231,9 @@ def synth(D):
                         "variadic": irdl.var_successor_def}}
     for c in ("operand", "result"):
         for j, d in enumerate(D[c]["defs"]):
-            ns[f"{PREFIX[c]}{j}"] = mk[c][d[0]](real_constr(d[1]))
+            ns[f"{PREFIX[c]}{j}"] = mk[c][d[0]](def_constr(c, d))
     for j, d in enumerate(D["region"]["defs"]):
-        ns[f"g{j}"] = mk["region"][d[0]]("single_block" if d[2] else None, entry_args=real_constr(d[1]))
+        ns[f"g{j}"] = mk["region"][d[0]]("single_block" if d[2] else None, entry_args=def_constr("region", d))
     for j, d in enumerate(D["successor"]["defs"]):
         ns[f"s{j}"] = mk["successor"][d[0]]()
     for key, pre, req, opt in (("props", "p", irdl.prop_def, irdl.opt_prop_def),
@@ -296,14 +369,27 @@ def reference(D, I):
     if reasons:
         return {"sizes": sizes, "reasons": reasons, "props": props, "attrs": attrs}
     env: dict = {}
+    ienv: dict = {}      # shared integer (length) variables
     first: list = []     # first constraint failure (later ones may be consequences)
     struct: list = []    # failures that do not depend on the variable context
+
+    def length(spec, n, construct):
+        if first:
+            return
+        why = int_sat(spec, n, ienv)
+        if why:
+            first.append((construct, D[construct]["opt"] if construct in CONSTRUCTS else "-", why))
 
     def sat(constr, idx, construct):
         if first:
             return
         why = None
-        if constr == "int":
+        if constr in ("arrN", "arrM"):
+            if idx < ARR0:
+                why = "not_array"
+            else:
+                length([constr[-1]], idx - ARR0, construct)
+        elif constr == "int":
             why = None if idx in INTS else "not_integer_type"
         elif constr == "i32":
             why = None if idx == 0 else "not_i32"
@@ -320,6 +406,7 @@ def reference(D, I):
     for c in ("operand", "result"):
         off = 0
         for d, s in zip(D[c]["defs"], sizes[c]):
+            length(len_spec(c, d), s, c)       # the segment length (0 for an absent optional) is checked first
             for idx in I[c][off:off + s]:
                 sat(d[1], idx, c)
             off += s
@@ -329,6 +416,7 @@ def reference(D, I):
             if d[2] and len(blocks) != 1:
                 struct.append(("region", D["region"]["opt"], "not_single_block"))
             if blocks:
+                length(len_spec("region", d), len(blocks[0]), "region")
                 for idx in blocks[0]:
                     sat(d[1], idx, "region")
         off += s
@@ -894,12 +982,20 @@ def _constr_default(draw, c):
         return draw(st.integers(0, 2))
     if c == "i32":
         return 0
+    if c in ("arrN", "arrM"):
+        return ARR0 + draw(st.integers(1 if c == "arrM" else 0, 2))
     return draw(st.integers(0, NTYPES - 1))
+
+
+LEN_POOL = [["N"]] * 5 + [["M"]] * 2 + [["ge", 1], ["le", 1], ["eq", 0], ["eq", 1], ["eq", 2]]
+LEN_POOL_SHARED = [["N"]] * 8 + [["M"]] * 2 + [["ge", 1], ["eq", 0]]
 
 
 @st.composite
 def def_strategy(draw):
     D = {}
+    # 0: no length constraints (the original generator), 1: some, 2: many defs sharing the int variable N
+    lenmode = draw(st.sampled_from([0, 0, 1, 1, 2, 2]))
     for c in CONSTRUCTS:
         if c in ("operand", "result"):
             n = draw(st.sampled_from([0, 1, 1, 2, 2, 2, 3, 3, 4]))
@@ -912,7 +1008,11 @@ def def_strategy(draw):
                 defs.append([k])
             else:
                 cn = draw(st.sampled_from(["any", "any", "int", "i32", "T", "T", "U"]))
-                defs.append([k, cn, draw(st.sampled_from([0, 0, 1]))] if c == "region" else [k, cn])
+                d = [k, cn, draw(st.sampled_from([0, 0, 1]))] if c == "region" else [k, cn]
+                if lenmode and (c == "region" or k != "single") and draw(
+                        st.sampled_from([True, False, False] if lenmode == 1 else [True, True, False])):
+                    d.append(list(draw(st.sampled_from(LEN_POOL if lenmode == 1 else LEN_POOL_SHARED))))
+                defs.append(d)
         nns = sum(1 for d in defs if d[0] != "single")
         if nns >= 2:
             opt = draw(st.sampled_from(["attr_sized_prop"] * 8 + ["attr_sized_attr"] * 8 + ["same_size"] * 8
@@ -932,7 +1032,8 @@ def def_strategy(draw):
         out = []
         for _ in range(draw(st.sampled_from([0, 0, 1, 1, 2, 3]))):
             m = draw(st.sampled_from(MODES))
-            cn = draw(st.sampled_from(["any", "int", "i32", "T", "U"]))
+            cn = draw(st.sampled_from(["any", "int", "i32", "T", "U"] + (
+                ["arrN", "arrN", "arrM"] if lenmode else [])))
             out.append([m, cn, _constr_default(draw, cn) if m in ("dflt", "optdflt") else None])
         D[key] = out
     return D
@@ -942,8 +1043,33 @@ def _skeleton(draw, D):
     """A valid instance: sizes per def, element values satisfying the constraints, properties, attributes."""
     tv = draw(st.integers(0, NTYPES - 1))
     uv = draw(st.integers(0, 2))
+    # integer (length) variables: value 0 is as likely as the others; when an optional def uses the variable
+    # only 0/1 can be satisfied. `consistent` False draws every use independently from 0..2 so that all
+    # equal / unequal combinations (including 0 first, then non-zero) are produced on valid segmentations.
+    uses = {"N": [], "M": []}
+    for c in ("operand", "result"):
+        for d in D[c]["defs"]:
+            sp = len_spec(c, d)
+            if sp is not None and sp[0] in uses:
+                uses[sp[0]].append(d[0])
+    nv = draw(st.sampled_from([0, 1] if "optional" in uses["N"] else [0, 0, 1, 2]))
+    mv = 1 if "optional" in uses["M"] else draw(st.integers(1, 2))
+    consistent = draw(st.sampled_from([True, True, False]))
+
+    def want(spec):
+        if spec is None:
+            return None
+        if spec[0] in ("N", "M"):
+            return (nv if spec[0] == "N" else mv) if consistent else draw(st.integers(0, 2))
+        if spec[0] == "ge":
+            return draw(st.integers(spec[1], max(spec[1], 3)))
+        if spec[0] == "le":
+            return draw(st.integers(0, max(spec[1], 0)))
+        return spec[1]
 
     def pick(cn, wide=False):
+        if cn in ("arrN", "arrM"):
+            return ARR0 + min(2, max(0, want([cn[-1]])))
         if cn == "any":
             return draw(st.integers(0, (NUNIV if wide else NTYPES) - 1))
         if cn == "int":
@@ -955,12 +1081,20 @@ def _skeleton(draw, D):
     sizes = {}
     for c in CONSTRUCTS:
         kinds = [d[0] for d in D[c]["defs"]]
+        wants = [None if (c in ("region", "successor") or d[0] == "single") else want(len_spec(c, d))
+                 for d in D[c]["defs"]]
         if D[c]["opt"] == "same_size":
-            k = draw(st.integers(0, 1 if "optional" in kinds else 2))
+            k = next((w for w in wants if w is not None), None)
+            if k is None:
+                k = draw(st.integers(0, 1 if "optional" in kinds else 2))
+            elif "optional" in kinds:
+                k = min(k, 1)
             sizes[c] = [1 if kd == "single" else k for kd in kinds]
         else:
-            sizes[c] = [1 if kd == "single" else draw(st.integers(0, 1)) if kd == "optional"
-                        else draw(st.sampled_from([0, 1, 1, 2, 3])) for kd in kinds]
+            sizes[c] = [1 if kd == "single"
+                        else (min(w, 1) if kd == "optional" else w) if w is not None
+                        else draw(st.integers(0, 1)) if kd == "optional"
+                        else draw(st.sampled_from([0, 1, 1, 2, 3])) for kd, w in zip(kinds, wants)]
     pieces = {}
     for c in ("operand", "result"):
         pieces[c] = [[pick(d[1]) for _ in range(s)] for d, s in zip(D[c]["defs"], sizes[c])]
@@ -969,7 +1103,12 @@ def _skeleton(draw, D):
         regs = []
         for _ in range(s):
             nb = 1 if d[2] else draw(st.sampled_from([0, 1, 1, 2]))
-            regs.append([[pick(d[1]) for _ in range(draw(st.sampled_from([0, 0, 1, 2])))] for _ in range(nb)])
+            blocks = []
+            for b in range(nb):
+                w = want(len_spec("region", d)) if b == 0 else None
+                na = w if w is not None else draw(st.sampled_from([0, 0, 1, 2]))
+                blocks.append([pick(d[1]) for _ in range(na)])
+            regs.append(blocks)
         pieces["region"].append(regs)
     pieces["successor"] = [[draw(st.integers(0, NBLOCKS - 1)) for _ in range(s)] for s in sizes["successor"]]
     dicts = {}
@@ -1074,17 +1213,22 @@ def _mutate(draw, D, I):
 def _instance(draw, D):
     sizes, pieces, dicts, tv = _skeleton(draw, D)
     via = draw(st.sampled_from(["create"] * 7 + ["build", "build", "init"]))
+    flat = {"via": "create", "del_props": [], "del_attrs": []}
+    for c in CONSTRUCTS:
+        flat[c] = [x for piece in pieces[c] for x in piece]
+    flat["props"] = [list(e) for e in dicts["props"]]
+    flat["attrs"] = [list(e) for e in dicts["attrs"]]
+    for c in CONSTRUCTS:
+        if D[c]["opt"] == "attr_sized_prop":
+            flat["props"].append([SEGNAME[c], ["d32", list(sizes[c])]])
+        elif D[c]["opt"] == "attr_sized_attr":
+            flat["attrs"].append([SEGNAME[c], ["d32", list(sizes[c])]])
+    if via != "create" and reference(D, flat)["reasons"]:
+        # the skeleton deliberately violates a length constraint (or cannot satisfy it): the constructor check
+        # only takes satisfying arguments, so this instance goes through Operation.create instead
+        via = "create"
     if via == "create":
-        I = {"via": "create", "del_props": [], "del_attrs": []}
-        for c in CONSTRUCTS:
-            I[c] = [x for piece in pieces[c] for x in piece]
-        I["props"] = dicts["props"]
-        I["attrs"] = dicts["attrs"]
-        for c in CONSTRUCTS:
-            if D[c]["opt"] == "attr_sized_prop":
-                I["props"].append([SEGNAME[c], ["d32", list(sizes[c])]])
-            elif D[c]["opt"] == "attr_sized_attr":
-                I["attrs"].append([SEGNAME[c], ["d32", list(sizes[c])]])
+        I = flat
         for _ in range(draw(st.sampled_from([0, 0, 0, 1, 1, 1, 1, 2, 2]))):
             _mutate(draw, D, I)
         return I
